@@ -44,22 +44,27 @@ def main():
     meta["confirmed"] = res
     # run checks against /repo with the patch applied
     det = {}
+    target = os.environ.get("SEED_TARGET", "/repo")  # a scratch worktree for trial runs; /repo for the record
+    envp = "VERIF_EVIDENCE_DIR=/verif/out/seed-evidence "
+    if target != "/repo":
+        envp += "VERIF_REPO=%s VERIF_OUT=/var/tmp/out-%s " % (target, os.path.basename(target))
     if checks and all(res.values()):
-        rc, out = sh("git -C /repo apply %s" % os.path.join(sd, "patch.diff"), "/")
+        rc, out = sh("git -C %s apply %s" % (target, os.path.join(sd, "patch.diff")), "/")
         try:
             for c in checks:
                 tier = "quick"
                 if ":" in c:
                     c, tier = c.split(":")
-                rc, out = sh("VERIF_EVIDENCE_DIR=/verif/out/seed-evidence ./check %s --tier %s" % (c, tier), "/verif", timeout=6000)
+                rc, out = sh(envp + "./check %s --tier %s" % (c, tier), "/verif", timeout=6000)
                 lines = [l for l in out.splitlines() if l.startswith("VIOLATION") or l.startswith("BROKEN") or l.startswith("INCONCLUSIVE")]
                 det["%s:%s" % (c, tier)] = {"exit": rc, "lines": [l[:300] for l in lines[:6]]}
                 print(c, tier, "exit", rc)
                 for l in lines[:6]:
                     print("   ", l[:300])
         finally:
-            sh("git -C /repo checkout -- .", "/")
-    meta["detected_by"] = det
+            sh("git -C %s checkout -- ." % target, "/")
+    if target == "/repo":
+        meta["detected_by"] = det
     json.dump(meta, open(os.path.join(sd, "meta.json"), "w"), indent=1)
 
 main()
